@@ -1038,7 +1038,9 @@ func c11(c *core.Ctx, r *core.Report) {
 				ok := isQ && q.Op == token.QUO
 				if ok {
 					num, den := an.D().Of(q.X), an.D().Of(q.Y)
-					ok = strings.Contains(num, "$volume") && strings.Contains(num, "$frequency") && strings.Count(den, ".CDF(") == 2 && strings.Contains(den, "($repeatWindow - $frequency)") && strings.Contains(den, ", 0)") && strings.Contains(den, " - ")
+					// the constructor's parameters by what is handed to them (the flag behind each), not by their names
+					pv, pf, pw := paramDescByFlag(c, fn, "volume", "volume"), paramDescByFlag(c, fn, "iteration-frequency", "frequency"), paramDescByFlag(c, fn, "repeat", "repeatWindow")
+					ok = strings.Contains(num, pv) && strings.Contains(num, pf) && strings.Count(den, ".CDF(") == 2 && strings.Contains(den, "("+pw+" - "+pf+")") && strings.Contains(den, ", 0)") && strings.Contains(den, " - ")
 				}
 				r.Check(ok, key, an.Pos(c, ret), "scale ← "+d, "the scale factor is "+d+", not volume·frequency / (CDF(window−frequency) − CDF(0))")
 			}
